@@ -3,6 +3,8 @@ package main
 import (
 	"encoding/json"
 	"fmt"
+	"runtime"
+	"runtime/debug"
 	"sort"
 
 	"github.com/echoface/be_indexer/roaringidx"
@@ -23,6 +25,11 @@ type rCase struct {
 	Fields []rField `json:"fields"`
 	Docs   []eDoc   `json:"docs"`
 	Ops    []rOp    `json:"ops"`
+	Bulk   int      `json:"bulk,omitempty"` // that many documents 0, 1, 2, ... `field 0 in [1]` added first (SpecRr.bulk_docs)
+}
+
+func bulkDoc(i int) eDoc {
+	return eDoc{ID: int64(i), Cons: []eConj{{{F: 0, Inc: true, V: tvSlice("[]int", tvInt("int", 1))}}}}
 }
 
 func buildRoaring(c *rCase) (*roaringidx.IvtBEIndexer, []string, int) {
@@ -38,6 +45,13 @@ func buildRoaring(c *rCase) (*roaringidx.IvtBEIndexer, []string, int) {
 	}
 	var adds []string
 	nok := 0
+	for i := 0; i < c.Bulk; i++ {
+		d := bulkDoc(i)
+		if err := b.AddDocument(d.build()); err != nil {
+			panic(err)
+		}
+		nok++
+	}
 	for i := range c.Docs {
 		var err error
 		p := safeCall(func() { err = b.AddDocument(c.Docs[i].build()) })
@@ -76,6 +90,10 @@ func assignCoq(a []eAssign) string {
 }
 
 func execRr(raw json.RawMessage) (res execResult, err error) {
+	// the process-wide pools (sync.Pool) are emptied by the garbage collector: keep it off during one history,
+	// so that what one retrieval puts back really is what the next one takes out
+	defer debug.SetGCPercent(debug.SetGCPercent(-1))
+	defer runtime.GOMAXPROCS(runtime.GOMAXPROCS(1)) // one P: sync.Pool keeps per-P caches
 	var c rCase
 	if err = json.Unmarshal(raw, &c); err != nil {
 		return
@@ -168,7 +186,11 @@ func execRr(raw json.RawMessage) (res execResult, err error) {
 		obs = append(obs, op.Op+"->"+rlit)
 		opLits = append(opLits, fmt.Sprintf("(%d%%N, %s, %s)", op.S, lit, rlit))
 	}
-	res.Coq = fmt.Sprintf("Build_rcase %s\n    %s\n    %s", rfieldsCoq(c.Fields), listl(docLits), listl(opLits))
+	docsLit := listl(docLits)
+	if c.Bulk > 0 {
+		docsLit = fmt.Sprintf("(bulk_docs %d%%N ++ %s)", c.Bulk, docsLit)
+	}
+	res.Coq = fmt.Sprintf("Build_rcase %s\n    %s\n    %s", rfieldsCoq(c.Fields), docsLit, listl(opLits))
 	res.NonTrivial = anyProper
 	res.Dist = fmt.Sprintf("fields=%d", len(c.Fields))
 	if anyHint {
@@ -281,6 +303,21 @@ func init() {
 						c.Ops = append(c.Ops, rOp{S: 0, Op: pick(r, []string{"retrieve", "docs"}), A: q}, rOp{S: 0, Op: "raw"})
 					}
 				}
+				add(c)
+			}
+			// large results (roaring switches container layout at 4096 values; pooled bitmaps of that size): 4200
+			// documents matching one value, then new, reset and hinted scanners on small results
+			if !zeroFields && (hintPct > 0 || tier == "thorough") { // about 50 s in the model: C15's quick tier, both thorough tiers
+				// ONE configured field: with several, the order in which the scanner visits them (a Go map) decides
+				// whether a later intersection happens to hide what a recycled bitmap still held
+				c := rCase{Fields: []rField{{F: 0, Cont: "default"}}, Bulk: 4200}
+				c.Docs = []eDoc{{ID: 7003, Cons: []eConj{{{F: 0, Inc: true, V: tvSlice("[]int", tvInt("int", 2))}}}},
+					{ID: 7005, Cons: []eConj{{{F: 0, Inc: true, V: tvSlice("[]int", tvInt("int", 1), tvInt("int", 2))}}, {{F: 0, Inc: false, V: tvSlice("[]int", tvInt("int", 9))}}}}}
+				one, two := []eAssign{{F: 0, V: tvInt("int", 1)}}, []eAssign{{F: 0, V: tvInt("int", 2)}}
+				c.Ops = []rOp{{S: 0, Op: "retrieve", A: one}, {S: 1, Op: "retrieve", A: two}, {S: 1, Op: "raw"},
+					{S: 2, Op: "hint", Hint: []int64{7003, 4100, 9999}}, {S: 2, Op: "docs", A: []eAssign{{F: 0, V: tvSlice("[]int", tvInt("int", 1), tvInt("int", 2))}}}, {S: 2, Op: "raw"},
+					{S: 0, Op: "reset"}, {S: 0, Op: "docs", A: two}, {S: 4, Op: "retrieve", A: two},
+					{S: 3, Op: "retrieve", A: []eAssign{{F: 0, V: tvSlice("[]int", tvInt("int", 2), tvInt("int", 9))}}}, {S: 6, Op: "raw"}, {S: 6, Op: "retrieve", A: two}}
 				add(c)
 			}
 			// value identity is 64 bits wide: values that agree in their low 32 bits (number parser: differing by a
